@@ -654,3 +654,131 @@ def exitLive (acts : Nat → Act) (ids : List Nat) : Nat → St → List Nat
     | some p => p.2 :: exitLive acts ids fuel (effect ids { s with pairs := s.pairs.dropLast } (acts p.2))
 
 end AtExit
+
+/-! ## `Parse` and the process: which outcomes end in `atexit.Exit`, and with which status -/
+namespace Cmd
+
+/-- what `Parse` does with the process: `none` = it returns to its caller, `some st` = it ends in `atexit.Exit(st)`
+    (`FatalMsg` exits with 1 — every fatal message, also through `FatalError` / `FatalIfError`; cmdline.go:180-191: the
+    usage text exits with 1, the two version texts with 0) -/
+def Outcome.exitStatus : Outcome → Option Nat
+  | .done _ => none
+  | .fatal => some 1
+  | .help => some 1
+  | .longVersion => some 0
+  | .version => some 0
+
+/-- the end of a process that made the `atexit.Register` / `Unregister` calls `ops` and then reaches an outcome of
+    `Parse` (or of one of the exported fatal entry points): `none` = the call returns and nothing is run, otherwise the
+    exit functions that run, in order, and the exit status of the process -/
+def processEnd (acts : Nat → AtExit.Act) (ops : List AtExit.Op) (o : Outcome) : Option (List Nat × Nat) :=
+  match o.exitStatus with
+  | none => none
+  | some st => AtExit.runHistory acts ops st
+
+end Cmd
+
+/-! ## `GeneralValue` used directly: `Set` then `String()` (values.go:32-197) for the kinds whose `%v` text the model owns -/
+namespace Cmd
+
+/-- the text `%v` prints for the value `Set` stores for `raw` (bool, the integer kinds, string); `none` = `Set` returns
+    an error, or the kind is not modelled here (float, duration: their text is `strconv` / `time` output) -/
+def vText (b : Base) (raw : Str) : Option Str :=
+  match b with
+  | .bool | .wbool => (parseBool raw).map (fun v => ofString (toString v))
+  | .int bits => (parseInt bits raw).map (fun v => ofString (toString v))
+  | .uint bits => (parseUint bits raw).map (fun v => ofString (toString v))
+  | .str => some raw
+  | _ => none
+
+/-- one successful `Set` on a value holding `elems` (the `%v` texts of its elements; exactly one for a scalar) -/
+def gvSet (k : Kind) (elems : List Str) (raw : Str) : Option (List Str) :=
+  (vText k.base raw).map (fun t => if k.slice then elems ++ [t] else [t])
+
+/-- `GeneralValue.String()`: a slice is its elements joined with ", " — the separator is written only when the buffer is
+    not empty (`if buffer.Len() != 0`), so empty leading elements leave no trace —, a string is put between double quotes
+    without escaping, everything else is `%v` -/
+def gvString (k : Kind) (elems : List Str) : Str :=
+  if k.slice then elems.foldl (fun buf e => (if buf = [] then buf else buf ++ [44, 32]) ++ e) []
+  else match k.base with
+    | .str => [34] ++ elems.headD [] ++ [34]
+    | _ => elems.headD []
+
+/-- a history of `Set` calls with `String()` after each; it ends at the first `Set` that fails (`none` in the log) -/
+def gvHistory (k : Kind) : List Str → List Str → List (Option Str)
+  | _, [] => []
+  | elems, raw :: rest =>
+    match gvSet k elems raw with
+    | none => [none]
+    | some e' => some (gvString k e') :: gvHistory k e' rest
+
+end Cmd
+
+/-! ## what a FAILING `GeneralValue.Set` leaves behind (values.go:38-104)
+
+The cases `*bool`, `*int64`, `*uint64` (and `*float64`, `*time.Duration`, not modelled here) parse straight into the
+destination: `*value, err = strconv.ParseX(str, …)` stores what the conversion returns TOGETHER with its error — `false`, 0
+for a syntax error, the nearest limit for a range error.  Every other case parses into a temporary and returns before the
+store.  In `Parse` the error is fatal, so this is only visible to a caller of `Set`. -/
+namespace Cmd
+
+inductive ScanRes | syntax | range | ok (n : Nat)
+deriving DecidableEq, Repr
+
+/-- the digit loop of `strconv.ParseUint` with base 0: the FIRST offence in scan order decides between syntax error and
+    range error (`n*base + d > maxVal`) -/
+def scanU (base maxVal : Nat) : Str → Nat → ScanRes
+  | [], n => .ok n
+  | c :: t, n =>
+    if c = 95 then scanU base maxVal t n
+    else match digitVal c with
+      | none => .syntax
+      | some d => if base ≤ d then .syntax else if maxVal < n * base + d then .range else scanU base maxVal t (n * base + d)
+
+/-- `strconv.ParseUint(s, 0, bits)` with the value it returns beside an error -/
+def parseUintFull (bits : Nat) (s : Str) : ScanRes :=
+  if s = [] then .syntax else
+  match scanU (splitBase s).1 (2 ^ bits - 1) (splitBase s).2 0 with
+  | .ok n => if s.contains 95 && !underscoreOK s then .syntax else .ok n
+  | r => r
+
+/-- the value `strconv.ParseInt(s, 0, bits)` returns and whether it comes with an error -/
+def parseIntFull (bits : Nat) (s : Str) : Int × Bool :=
+  match s with
+  | [] => (0, false)
+  | c :: r =>
+    let neg := c = 45
+    let body := if c = 43 ∨ c = 45 then r else s
+    match parseUintFull bits body with
+    | .syntax => (0, false)
+    | res =>
+      let un := match res with | .ok n => n | _ => 2 ^ bits - 1
+      if !neg && 2 ^ (bits - 1) ≤ un then (((2 ^ (bits - 1) - 1 : Nat) : Int), false)
+      else if neg && 2 ^ (bits - 1) < un then (-((2 ^ (bits - 1) : Nat) : Int), false)
+      else ((if neg then -(un : Int) else (un : Int)), true)
+
+/-- the `%v` text a FAILING `Set` stores, for the cases that parse straight into the destination (`direct`: the Go type is
+    `*bool`, `*int64` or `*uint64` — not `*int` / `*uint`, which go through a temporary); `none` = nothing is stored -/
+def failStore (direct : Bool) (k : Kind) (raw : Str) : Option Str :=
+  if !direct || k.slice then none else
+  match k.base with
+  | .bool => some (ofString "false")
+  | .int 64 => some (ofString (toString (parseIntFull 64 raw).1))
+  | .uint 64 => some (ofString (toString (match parseUintFull 64 raw with
+      | .ok n => n | .range => 2 ^ 64 - 1 | .syntax => 0)))
+  | _ => none
+
+/-- one `Set`, successful or not: the new contents and whether it succeeded -/
+def gvSetFull (direct : Bool) (k : Kind) (elems : List Str) (raw : Str) : List Str × Bool :=
+  match gvSet k elems raw with
+  | some e' => (e', true)
+  | none => (match failStore direct k raw with | some t => [t] | none => elems, false)
+
+/-- a history of `Set` calls, each followed by `String()`; nothing ends it -/
+def gvHistoryFull (direct : Bool) (k : Kind) : List Str → List Str → List (Bool × Str)
+  | _, [] => []
+  | elems, raw :: rest =>
+    let r := gvSetFull direct k elems raw
+    (r.2, gvString k r.1) :: gvHistoryFull direct k r.1 rest
+
+end Cmd
